@@ -102,6 +102,7 @@ TOTAL = [
     r"^uom::si::.*>::new$", r"^uom::.*$", r"^<uom::.*$",
     r"^core::ops::arith::(Add|Sub|Mul)::(add|sub|mul)$", r"^<&usize as core::ops::arith::Add<usize>>::add$",
     r"^core::char::methods::<impl char>::.*$", r"^core::str::iter::.*$", r"^thiserror::.*$", r"^<.* as core::error::Error>::.*$",
+    r"^core::array::<impl \[T; N\]>::(as_slice|as_mut_slice|iter|map|each_ref)$", r"^core::array::<impl .*>::(as_ref|as_mut|borrow|into_iter|try_from|eq|ne)$",
     r"^core::intrinsics::(discriminant_value|size_of|cold_path|likely|unlikely)$", r"^core::ptr::.*$", r"^core::any::.*$",
 ]
 
